@@ -51,6 +51,8 @@ type schedSpec struct {
 	Baseline [][]string `json:"baseline"`
 	// Unstable: instances whose solo run came out differently when repeated after the other solo runs (reference process)
 	Unstable []int `json:"unstable"`
+	// Repeat: the reference process runs the solo runs of this case a second time (in the opposite order)
+	Repeat bool `json:"repeat"`
 }
 
 type instResult struct {
@@ -313,7 +315,7 @@ func runSched(c jobCase) {
 		// instances have run in this process depends on more than its own history (tables, caches and buffers that outlive an
 		// instance); the instances concerned are handed to the replay, which reports them
 		differs := make([]bool, n)
-		for i := n - 1; i >= 0; i-- {
+		for i := n - 1; i >= 0 && ss.Repeat; i-- {
 			runtime.GC()
 			runtime.GC()
 			differs[i] = !reflect.DeepEqual(digestsOf(ss.Insts[i], runInst(ss.Insts[i], files[i], i+1, nil)), base[i])
